@@ -5,6 +5,7 @@ from pyvc.verify import Contract
 from pyvc.ops import to_num, rpow, rpowr
 from .model import *  # noqa
 from .c_unit import wf_unit, live, _UnitBin
+from .c_unit import CONTRACTS as _UC
 from .c_dimension import pointwise, pointwise_rel
 
 CONTRACTS = {}
@@ -123,6 +124,14 @@ class _QBin(Contract):
         if isinstance(a.other, VObj):
             do = qdim(o, a.other) if a.other.cls == "Quantity" else VObj("Dimension", o.f(a.other, "dimension"))
             yield "dimension", pointwise(c, dr, lambda i: dexp(o, ds, i) + s * dexp(o, do, i))
+            # C06: the unit of the result is exactly the product / quotient of the operand units (prefix and factors),
+            # so that its physical value is the product / quotient of the operands' values whatever units they are written in
+            from pyvc.verify import Args
+            ou = qunit(o, a.other) if a.other.cls == "Quantity" else a.other
+            UK = _UC["measured.Unit._multiply" if s == 1 else "measured.Unit._divide"]
+            for nm, f in UK.ensures(c, Args({"self": qunit(o, a.self), "other": ou}), qunit(c, r)):
+                if not nm.startswith("table-grows") and nm != "dimension":
+                    yield "unit-" + nm, f
         else:
             yield "unit-kept", c.f(r, "unit") == o.f(a.self, "unit")
         ks, xs = mkind(o, a.self), mval(o, a.self)
@@ -202,6 +211,10 @@ class QPow(Contract):
         yield "dimension", pointwise(c, qdim(c, r), lambda i: dexp(o, qdim(o, a.self), i) * a.power.z)
         yield "decimal-preserved", kind_rule(mkind(c, r), mkind(o, a.self))
         yield "magnitude", mval(c, r) == rpow(mval(o, a.self), a.power.z)
+        from pyvc.verify import Args
+        for nm, f in _UC["measured.Unit.__pow__"].ensures(c, Args({"self": qunit(o, a.self), "power": a.power}), qunit(c, r)):
+            if not nm.startswith("table-grows") and nm != "dimension":
+                yield "unit-" + nm, f
 
 
 class _QUnary(Contract):
@@ -459,7 +472,5 @@ class QRoot(Contract):
                                                       z3.ForAll([z3.Const("b!qr", Ref("Unit"))], z3.Implies(z3.Const("b!qr", Ref("Unit")) != One.ref,
                                                       facv(c, qunit(c, r), z3.Const("b!qr", Ref("Unit"))) * n == facv(o, qunit(o, a.self), z3.Const("b!qr", Ref("Unit")))))))
 
-
-from .c_unit import CONTRACTS as _UC  # noqa: E402
 
 CONTRACTS_UNIT_ROOT = _UC["measured.Unit.root"]
